@@ -119,3 +119,53 @@ Section Acc.
     exists p, q, p', q'. auto.
   Qed.
 End Acc.
+
+(* ----- "exactly once", spelled out for a run from the initial state over distinct file names ----- *)
+Lemma NoDup_app_disjoint {A} (a b : list A) x : NoDup (a ++ b) -> In x a -> In x b -> False.
+Proof.
+  induction a as [|y a IH]; intros Hn Ha Hb; [destruct Ha|].
+  cbn [app] in Hn. inversion Hn as [|? ? Hy Hn']; subst. destruct Ha as [->|Ha].
+  - apply Hy, in_or_app. right. exact Hb.
+  - exact (IH Hn' Ha Hb).
+Qed.
+
+Theorem exactly_once supers L : absorbs_all supers L = true ->
+  forall files, Forall (input_ok supers) files -> NoDup (map (fun fi : file_input => fst (fst fi)) files) ->
+  exists st', run_files supers L files ms_init = Completed st' /\
+    NoDup (ms_files st' ++ map fst (ms_skipped st')) /\
+    (forall n, In n (map (fun fi : file_input => fst (fst fi)) files) <->
+               In n (ms_files st') \/ In n (map fst (ms_skipped st'))) /\
+    (forall n, ~ (In n (ms_files st') /\ In n (map fst (ms_skipped st')))).
+Proof.
+  intros Habs files Hok Hnd.
+  destruct (accounted supers L Habs files ms_init Hok) as [st' [Hrun [Hperm _]]].
+  cbn [ms_init ms_files ms_skipped map app] in Hperm.
+  exists st'. split; [exact Hrun|].
+  assert (Hn : NoDup (ms_files st' ++ map fst (ms_skipped st'))).
+  { apply (Permutation_NoDup (Permutation_sym Hperm)). exact Hnd. }
+  split; [exact Hn|]. split.
+  - intro n. rewrite <- in_app_iff. split; intro H.
+    + exact (Permutation_in n (Permutation_sym Hperm) H).
+    + exact (Permutation_in n Hperm H).
+  - intros n [H1 H2]. exact (NoDup_app_disjoint _ _ n Hn H1 H2).
+Qed.
+
+(* a file that meets no fault is scanned - never skipped - whatever happens to the files around it *)
+Lemma run_files_keeps supers L files : forall st st' n,
+  run_files supers L files st = Completed st' -> In n (ms_files st) -> In n (ms_files st').
+Proof.
+  induction files as [|[[name fault] rs] t IH]; intros st st' n Hrun Hin; cbn [run_files] in Hrun.
+  - injection Hrun as <-. exact Hin.
+  - destruct (one_file supers L fault rs) as [rs'|r|c|c]; try discriminate;
+      apply (IH _ _ n Hrun); cbn [ms_files]; [apply in_or_app; left|]; exact Hin.
+Qed.
+
+Theorem healthy_scanned supers L files : forall st st' name rs,
+  run_files supers L files st = Completed st' -> In (name, None, rs) files -> In name (ms_files st').
+Proof.
+  induction files as [|[[nm fault] rs0] t IH]; intros st st' name rs Hrun Hin; [destruct Hin|].
+  cbn [run_files] in Hrun. destruct Hin as [Heq|Hin].
+  - injection Heq as -> -> ->. cbn [one_file] in Hrun.
+    apply (run_files_keeps supers L t _ _ name Hrun). cbn [ms_files]. apply in_or_app. right. left. reflexivity.
+  - destruct (one_file supers L fault rs0) as [rs'|r|c|c]; try discriminate; exact (IH _ _ name rs Hrun Hin).
+Qed.
